@@ -70,6 +70,8 @@ struct Thread {
     int prio = 0;
     int quantum = 0;
     std::string name;
+    bool own_stream = false;     // kernel choices for this thread's polls come from its own random stream (C14 independence)
+    Rng r_own;
     // race detector state (tsanrt)
     std::vector<uint32_t> vc;
     std::vector<const char *> shadow_stack;
@@ -300,5 +302,12 @@ void kernel_changed();                          // readiness may have changed: w
 void hb_release(std::vector<uint32_t> &vc);
 void hb_acquire(const std::vector<uint32_t> &vc);
 extern bool g_race_build;
+extern const char *g_race_property;   // property a detected race is reported under (the campaign's own)
+void race_reset();                    // a new run starts: forget every shadow cell
+void race_once_enter();               // pthread_once: callers that did not run the routine acquire ...
+void race_once_exit();                // ... what the one that ran it released
+void race_stats(uint64_t &accesses, uint64_t &preempts);
+void set_own_stream(int logical_id);  // current thread: draw its poll choices from a stream named by logical_id
+Rng &epoll_rng();
 
 } // namespace sim
